@@ -341,9 +341,57 @@ impl<'tcx> M<'tcx> {
             }
             return Ok(Some(acc));
         }
+        if (n.ends_with("::all") || n.ends_with("::any")) && vals.len() == 2 {
+            // Iterator::all / any over a modelled iterator (by value or through &mut): short-circuiting, in iteration order
+            let (itv, by_ref) = match (&vals[0].0, vals[0].1.kind()) {
+                (V::Ptr(p), ty::Ref(_, inner, _)) => (self.load(&p.clone(), *inner).ok(), Some((p.clone(), *inner))),
+                (v, _) => (Some(v.clone()), None),
+            };
+            if let Some(mut it) = itv {
+                if matches!(it, V::SliceIter(..) | V::Obj("zip", _)) {
+                    let is_all = n.ends_with("::all");
+                    let (fv, fty) = vals[1].clone();
+                    let item_ty = cargs.types().next().and_then(|t| match peel_refs(t).kind() {
+                        _ => None::<Ty<'tcx>>,
+                    });
+                    let _ = item_ty;
+                    let mut result = is_all;
+                    loop {
+                        let nx = self.iter_method(&mut it, "next")?;
+                        let V::Enum(1, mut e) = nx else { break };
+                        let item = e.remove(0);
+                        let ity = tcx.types.unit; // the callee's own local types are used when its frame is set up
+                        let r = self.call_callable(fv.clone(), fty, vec![(item, ity)], tcx.types.bool)?;
+                        let b = match r {
+                            V::Int(k) => k != 0,
+                            V::T(t) => self.decide_bool(t),
+                            o => return unsup(format!("predicate returned {:?}", o)),
+                        };
+                        if is_all && !b {
+                            result = false;
+                            break;
+                        }
+                        if !is_all && b {
+                            result = true;
+                            break;
+                        }
+                    }
+                    if let Some((p, inner)) = by_ref {
+                        self.store(&p, inner, it)?;
+                    }
+                    return Ok(Some(V::Int(result as i128)));
+                }
+            }
+        }
         if n == "std::iter::Iterator::zip" || n == "std::iter::zip" {
             let a = vals[0].0.clone();
-            let b = vals[1].0.clone();
+            let mut b = vals[1].0.clone();
+            // the second operand is any IntoIterator: a slice reference iterates from its first element
+            if let V::Ptr(p) = &b {
+                if p.sl.is_some() {
+                    b = V::SliceIter(p.clone(), 0, p.sl.unwrap().1, 0);
+                }
+            }
             if matches!(a, V::SliceIter(..) | V::Obj(..)) && matches!(b, V::SliceIter(..) | V::Obj(..)) {
                 return Ok(Some(V::Obj("zip", vec![a, b])));
             }
